@@ -1,4 +1,5 @@
 import Witverif.Async.ExecTag
+import Witverif.Async.ChanTag
 /-
 Trace events of the async runtime harness (harness/rt-native, engine `script`): one constructor
 per token the harness can write.  The runtime models (`Waitable`, `Subtask`, `Script`) *emit*
@@ -41,6 +42,8 @@ inductive Ev
   | other (s : String)
   -- tokens of engine `exec` (C22/C23): executor, spawn, wakers, unit stream — see ExecTag.lean
   | x (t : XTag) (ns : List Nat)
+  -- tokens of engine `chan` (C19/C20): stream / future operations, payload callbacks, peer — see ChanTag.lean
+  | ch (t : CTag) (ns : List Nat)
 deriving DecidableEq, Repr
 
 def b01 (b : Bool) : String := if b then "1" else "0"
@@ -66,6 +69,7 @@ def Ev.toTok : Ev → String
   | .endTok none errs => s!"end:?:{errs}" | .endTok (some l) errs => s!"end:{l}:{errs}"
   | .other s => s
   | .x t ns => t.fmt ns
+  | .ch t ns => t.fmt ns
 
 /-! ### Parsing a token back (total: what is not recognised becomes `.other`) -/
 
@@ -149,7 +153,9 @@ def Ev.ofTok (tok : String) : Ev :=
     | "end", [l, errs] =>
       if rs == s!":{l}:{errs}" then some (.endTok (some (Int.ofNat l)) errs)
       else if rs == s!":-{l}:{errs}" then some (.endTok (some (-(Int.ofNat l))) errs) else none
-    | _, _ => (XTag.parse nm nums rs).map fun (t, ns) => .x t ns
+    | _, _ =>
+      ((XTag.parse nm nums rs).map fun (t, ns) => Ev.x t ns).orElse fun _ =>
+        (CTag.parse nm nums).map fun (t, ns) => Ev.ch t ns
   -- accept only tokens that print back to themselves (round-trip guard of the protocol)
   match r with
   | some e => if e.toTok == tok then e else .other tok
